@@ -10,7 +10,7 @@ headers, random section order, non-zero garbage in the gaps) and opens it with t
 ELFFile(BytesIO).  impl = SymbolTableSection / SymbolTableIndexSection /
 SUNWSyminfoTableSection / ELFHashSection / GNUHashSection observations; model =
 extracted Model/C03*.v on the same image; spec = extracted Spec/C03*.v expectations."""
-import io, random, struct
+import io, os, random, struct
 
 CLAIMED = True
 CONFIG = {'assumptions': [
@@ -50,7 +50,9 @@ RULE = ('cases: (a) hash functions on byte strings (random ASCII/UTF-8/raw bytes
         '(c) SysV tables (nbucket 1..2n, head- or tail-inserted chains) and (d) GNU tables (nbuckets 1.., bloom size 1.., '
         'shift 0..31, symoffset 0..n, forced full-hash collisions, section last in the file so the final chain ends at EOF), '
         'queried with every present name (sampled on large tables) and absent names (random, same bucket, same full hash, bloom '
-        'false positive). distinct = hash(kind, abstract); non-trivial = a table with >= 2 symbols, or a hash-function input of '
+        'false positive); (e) four real shared objects (GNU ld and gold, ELF32/ELF64, corpus/C03): decoded by the harness with struct, the '
+        'Coq spec encoders must reproduce the section bytes and wf_sysv_hash / wf_gnu_hash must accept the linker\'s tables, then all '
+        'present names and 40 absent ones are looked up. distinct = hash(kind, abstract); non-trivial = a table with >= 2 symbols, or a hash-function input of '
         '>= 2 bytes')
 
 SHT = {'NULL': 0, 'SYMTAB': 2, 'STRTAB': 3, 'HASH': 5, 'DYNSYM': 11, 'SYMTAB_SHNDX': 18,
@@ -319,7 +321,17 @@ def corpus(ctx):
             common2 = [le, is64, 62, 0, 0, 9, syms2]
             out.append(('sysv', common2 + [[b'!(xxxvw_!', b'plain', b'absent'], [3, 0]]))
     out.append(('hashfn', [b'!(xxxvw_!']))
+    # real linker output (GNU ld and gold, both classes): see corpus/C03/README
+    for f in _corpus_files():
+        out.append(('elf-file', [f.encode(), ctx.rng.getrandbits(32)]))
     return out
+
+
+CORPUS_DIR = os.path.join(os.path.dirname(os.path.abspath(__file__)), '..', '..', 'corpus', 'C03')
+
+
+def _corpus_files():
+    return sorted(f for f in os.listdir(CORPUS_DIR) if f.endswith('.so')) if os.path.isdir(CORPUS_DIR) else []
 
 
 # ------------------------------------------------------------------ image assembly (harness side)
@@ -467,6 +479,9 @@ def evaluate(ctx, cases):
         _eval_hashfn(ctx, [c for _, c in hf])
     for kind, a in cases:
         if kind == 'hashfn':
+            continue
+        if kind == 'elf-file':
+            _eval_file(ctx, kind, a, ENUMS)
             continue
         _eval_table(ctx, kind, a, ENUMS)
 
@@ -689,3 +704,106 @@ def _eval_table(ctx, kind, a, ENUMS):
     else:
         ctx.bump('sysv_nbucket', nb if nb <= 3 else '4+')
     ctx.record(kind, a, impl=impl, spec=spec, model=model, in_domain=in_dom, nontrivial=nontrivial, key=key)
+
+
+# ------------------------------------------------------------------ real linker output (corpus/C03/*.so)
+def _eval_file(ctx, kind, a, ENUMS):
+    """A real shared object.  The harness decodes .dynsym/.dynstr/.hash/.gnu.hash with struct (no pyelftools), the Coq
+    spec encoders must reproduce the section bytes from the decoded values, the extracted predicates must accept the
+    linker's tables (evidence that wf_* are not narrower than what linkers build), then impl / model / spec are compared."""
+    from elftools.elf.elffile import ELFFile
+    drv = ctx.driver
+    fname = a[0].decode()
+    rng = random.Random(a[1])
+    img = open(os.path.join(CORPUS_DIR, fname), 'rb').read()
+    is64, le = int(img[4] == 2), int(img[5] == 1)
+    E = '<' if le else '>'
+    if is64:
+        shoff, = struct.unpack_from(E + 'Q', img, 0x28)
+        shentsize, shnum, _ = struct.unpack_from(E + 'HHH', img, 0x3A)
+    else:
+        shoff, = struct.unpack_from(E + 'I', img, 0x20)
+        shentsize, shnum, _ = struct.unpack_from(E + 'HHH', img, 0x2E)
+    secs = []
+    for i in range(shnum):
+        f = struct.unpack_from(E + ('IIQQQQIIQQ' if is64 else 'IIIIIIIIII'), img, shoff + i * shentsize)
+        secs.append(dict(index=i, type=f[1], off=f[4], size=f[5], link=f[6], entsize=f[9]))
+    def sec_of(t):
+        return next(x for x in secs if x['type'] == t)
+    dynsym = sec_of(SHT['DYNSYM'])
+    strsec = secs[dynsym['link']]
+    strtab = img[strsec['off']:strsec['off'] + strsec['size']]
+    std = 24 if is64 else 16
+    n = dynsym['size'] // dynsym['entsize']
+    rows = []
+    for i in range(n):
+        o = dynsym['off'] + i * dynsym['entsize']
+        if is64:
+            nm, info, other, shndx, value, size = struct.unpack_from(E + 'IBBHQQ', img, o)
+        else:
+            nm, value, size, info, other, shndx = struct.unpack_from(E + 'IIIBBH', img, o)
+        rows.append([[nm, value, size, info >> 4, info & 15, other >> 5, (other >> 3) & 3, other & 7, shndx],
+                     img[o + std:o + dynsym['entsize']]])
+    def cstr(o):
+        return strtab[o:strtab.index(b'\0', o)]
+    names = [cstr(r[0][0]) for r in rows]
+    W = lambda o, k: list(struct.unpack_from(E + 'I' * k, img, o))
+    hsec = sec_of(SHT['HASH'])
+    nb, nc = W(hsec['off'], 2)
+    Ts = [W(hsec['off'] + 8, nb), W(hsec['off'] + 8 + 4 * nb, nc)]
+    gsec = sec_of(SHT['GNU_HASH'])
+    gnb, so, bsz, shift = W(gsec['off'], 4)
+    xw = 8 if is64 else 4
+    bloom = list(struct.unpack_from(E + ('Q' if is64 else 'I') * bsz, img, gsec['off'] + 16))
+    gb = W(gsec['off'] + 16 + xw * bsz, gnb)
+    cpos = gsec['off'] + 16 + xw * bsz + 4 * gnb
+    chain = W(cpos, (gsec['off'] + gsec['size'] - cpos) // 4)
+    Tg = [so, shift, bloom, gb, chain]
+    present = sorted(set(names))
+    queries = present + _absent_queries(rng, names, 40)
+    rng.shuffle(queries)
+    symb, ok, views, hb, wfs, gbts, wfg, byspec, ps, pg = drv.batch(
+        [['enc_symtab', le, is64, rows], ['symtab_ok', is64, dynsym['entsize'], rows, strtab], ['spec_views', strtab, rows],
+         ['enc_sysv', le, Ts], ['wf_sysv', Ts, strtab, rows], ['enc_gnu', le, is64, Tg], ['wf_gnu', is64, Tg, strtab, rows],
+         ['spec_by_name', strtab, rows, queries], ['spec_present', strtab, rows, 1, queries],
+         ['spec_present', strtab, rows, so, queries]])
+    reencoded = (symb == img[dynsym['off']:dynsym['off'] + dynsym['size']] and
+                 hb == img[hsec['off']:hsec['off'] + hsec['size']] and gbts == img[gsec['off']:gsec['off'] + gsec['size']])
+    in_dom = bool(ok) and bool(wfs) and bool(wfg) and reencoded
+    ctx.bump('kind', kind)
+    ctx.bump('elf_file', '%s spec-encoders-reproduce-bytes=%d symtab_ok=%d wf_sysv=%d wf_gnu=%d nsyms=%d' %
+             (fname, reencoded, bool(ok), bool(wfs), bool(wfg), n))
+    cfg = [le, is64, [dynsym['off'], dynsym['size'], dynsym['entsize']], strsec['off']]
+    m_iter, m_by, m_s, m_g = drv.batch([['m_iter', img, cfg], ['m_by_name', img, cfg, queries],
+                                        ['m_sysv', img, cfg, hsec['off'], queries], ['m_gnu', img, cfg, gsec['off'], queries]])
+    elf = ELFFile(io.BytesIO(img))
+    symsec = elf.get_section(dynsym['index'])
+    qstr = [q.decode('utf-8') for q in queries]
+    impl = [_call(lambda: _ok([_view(s, ENUMS) for s in symsec.iter_symbols()])),
+            [_call(lambda: _ok((lambda r: 'none' if r is None else ['some', [_view(s, ENUMS) for s in r]])(
+                symsec.get_symbol_by_name(q)))) for q in qstr]]
+    spec = [_ok(views), [_ok(x) for x in byspec]]
+    model = [m_iter, m_by]
+    for sec, lo, m, pres in ((hsec, 1, m_s, ps), (gsec, so, m_g, pg)):
+        hv = views[lo:]
+        obj = elf.get_section(sec['index'])
+        lk = []
+        for q in qstr:
+            r = _call(lambda: obj.get_symbol(q))
+            lk.append(r if (isinstance(r, list) and r and r[0] == 'err') else
+                      _ok(_lookup_obs(None if r is None else _view(r, ENUMS), hv)))
+        impl.append([_call(lambda: _ok(obj.get_number_of_symbols())), lk])
+        spec.append([_ok(n), [_ok(['some', q, 1]) if p else _ok('none') for q, p in zip(queries, pres)]])
+        model.append([m[0], [(_ok(_lookup_obs(r[1] if r[1] == 'none' else r[1][1], hv))
+                              if (isinstance(r, list) and r and r[0] == 'ok') else r) for r in m[1]]])
+    key = None
+    from tools.lib import sx
+    for part, i_, s_ in zip(['file-symtab-enumeration', 'file-by-name', 'file-sysv-hash', 'file-gnu-hash'], impl, spec):
+        if sx.canon(i_) != sx.canon(s_):
+            key = part
+            break
+    if not in_dom:
+        # a real linker's table outside the theorem's domain would mean the predicates are too narrow: report it
+        ctx.notes.append('corpus file %s is NOT certified in-domain (reencoded=%s symtab_ok=%s wf_sysv=%s wf_gnu=%s)' %
+                         (fname, reencoded, ok, wfs, wfg))
+    ctx.record(kind, a, impl=impl, spec=spec, model=model, in_domain=in_dom, nontrivial=True, key=key)
